@@ -484,7 +484,9 @@ def gen_cli(repo, out):
     out.raw("Definition updater_daemon : bool := true. " + comment("cli/update.py: self.daemon = True"))
     g = find_func(cls.body, "_get_latest_version", "_get_latest_version")
     handlers = [ast.unparse(h.type) for n in ast.walk(g) if isinstance(n, ast.Try) for h in n.handlers]
-    if handlers != ["requests.exceptions.RequestException"]:
+    # the repaired code catches Exception; the narrower clause of the pinned code is still *translated* (not rejected) so that
+    # going back to it shows up as a broken proof obligation (Props/C20.v: C20_checker_swallows_every_exception)
+    if len(handlers) != 1 or handlers[0] not in ("Exception", "requests.exceptions.RequestException"):
         fail("update check exception handler", f"found {handlers}")
     out.text("update_caught_exception", handlers[0], "cli/update.py: except clause")
     # ---- C20 additions: comparison operator of needs_update, the notice text, shape of the transcribed statements
